@@ -7,6 +7,7 @@ import (
 	"encoding/json"
 	"fmt"
 	"hash/crc32"
+	"io/fs"
 	"os"
 	"path/filepath"
 	"sort"
@@ -26,6 +27,7 @@ type entryT struct {
 	Name string `json:"name_quoted"`
 	Size string `json:"declared_size"` // honest | smaller | zero | half | larger | huge-gomod | huge-license | huge-total
 	Dir  bool   `json:"directory_entry,omitempty"`
+	Mode string `json:"header_mode_bits,omitempty"`
 }
 
 type caseT struct {
@@ -49,6 +51,21 @@ type ent struct {
 	name    string
 	content string
 	size    string
+	mode    string // "" | dir | symlink | exec | device: mode bits in the entry's header (the name decides what an entry is, not these)
+}
+
+func (e ent) fileMode() (fs.FileMode, bool) {
+	switch e.mode {
+	case "dir":
+		return fs.ModeDir | 0o755, true
+	case "symlink":
+		return fs.ModeSymlink | 0o777, true
+	case "exec":
+		return 0o755, true
+	case "device":
+		return fs.ModeDevice | 0o600, true
+	}
+	return 0, false
 }
 
 func contentOf(name string) string { return "content of <" + name + ">\n" }
@@ -86,7 +103,11 @@ func build(entries []ent) ([]byte, error) {
 			declared = 1 << 63
 		}
 		if e.size == "honest" {
-			w, err := zw.CreateHeader(&zip.FileHeader{Name: e.name, Method: zip.Store})
+			fh := &zip.FileHeader{Name: e.name, Method: zip.Store}
+			if m, ok := e.fileMode(); ok {
+				fh.SetMode(m)
+			}
+			w, err := zw.CreateHeader(fh)
 			if err != nil {
 				return nil, err
 			}
@@ -285,7 +306,7 @@ func Run(r *fw.Run) {
 		es        []ent
 	}
 	var jobs []job
-	mk := func(n string) ent { return ent{n, contentOf(n), "honest"} }
+	mk := func(n string) ent { return ent{name: n, content: contentOf(n), size: "honest"} }
 	for i, a := range names {
 		jobs = append(jobs, job{goodMod, goodVers, []ent{mk(a)}})
 		for _, sz := range []string{"smaller", "zero", "half", "larger", "huge-gomod", "huge-license", "huge-total", "maxint64", "near-maxint64", "above-int64"} {
@@ -333,6 +354,14 @@ func Run(r *fw.Run) {
 			jobs = append(jobs, job{mv[0], mv[1], []ent{mk(pf + "go.mod"), mk(pf + p)}})
 		}
 	}
+	// mode bits in entry headers
+	for _, md := range []string{"dir", "symlink", "exec", "device"} {
+		for _, n := range []string{"a.go", "go.mod", "sub/x.go", "d/", "LICENSE"} {
+			e := mk(prefixes[0] + n)
+			e.mode = md
+			jobs = append(jobs, job{goodMod, goodVers, []ent{e}}, job{goodMod, goodVers, []ent{mk(prefixes[0] + "N"), e}}, job{goodMod, goodVers, []ent{e, mk(prefixes[0] + "N")}})
+		}
+	}
 	// byte sweep over entry names
 	for _, n := range zipx.SweepNames() {
 		jobs = append(jobs, job{goodMod, goodVers, []ent{mk(prefixes[0] + n)}}, job{goodMod, goodVers, []ent{mk(prefixes[0] + "N"), mk(prefixes[0] + n)}})
@@ -358,7 +387,7 @@ func Run(r *fw.Run) {
 		if msg != "" {
 			c := caseT{ModPath: j.mod, Version: j.vers}
 			for _, e := range j.es {
-				c.Entries = append(c.Entries, entryT{Name: strconv.QuoteToASCII(e.name), Size: e.size})
+				c.Entries = append(c.Entries, entryT{Name: strconv.QuoteToASCII(e.name), Size: e.size, Mode: e.mode})
 			}
 			l.Outcomes["VIOLATION"]++
 			r.Violation(c.key(), msg, c)
@@ -376,7 +405,7 @@ func Replay(r *fw.Run, raw json.RawMessage) {
 	var es []ent
 	for _, e := range c.Entries {
 		n, _ := strconv.Unquote(e.Name)
-		es = append(es, ent{n, contentOf(n), e.Size})
+		es = append(es, ent{n, contentOf(n), e.Size, e.Mode})
 	}
 	r.States.Add(1)
 	r.Transitions.Add(1)
